@@ -363,6 +363,10 @@ func runC08(c *mon.Ctx) {
 						c.Count("larger_packet_runs")
 					}
 				}
+				// a read-only reader loses the packets it peeked at, by design: what follows must be the rest of the baseline. With
+				// 188+k framing the second packet must not start with a sync byte inside the peeked window either
+				try(fmt.Sprintf("k=%d auto", k), big, DemuxCfg{PacketSize: 0, Reader: "plain", API: "packet"}, true, "full")
+				c.Count("larger_packet_runs")
 			}
 		}
 		if i < 2 {
